@@ -178,6 +178,23 @@ def enc_component(max_len=512):
     return _c()
 
 
+def mismatch_component(max_len=256):
+    """A component whose encrypt_by_session_key FLAG disagrees with its ENC tag (legal for the object model; the writer goes by the flag,
+    a reader by the tag): flag set without the tag value 02, or the tag value 02 on a component that is not flagged."""
+
+    @st.composite
+    def _c(draw):
+        blob = draw(payload(max_len))
+        if draw(st.booleans()):
+            return dict(desc=draw(plain_description(max_total=60, max_tags=3)), blob=blob, actual_len=draw(actual_len_for(len(blob))), enc=True, mismatch="flag-without-tag")
+        d = [(t, v) for t, v in draw(plain_description(max_total=60, max_tags=3)) if t != 0xC2]
+        d.insert(draw(st.integers(0, len(d))), (0xC2, b"\x02"))
+        blob = blob + bytes(range(1, 17))[: -len(blob) % 16]  # whole blocks, so that a tag-driven parser can still walk the file
+        return dict(desc=d, blob=blob, actual_len=draw(actual_len_for(len(blob))), enc=False, mismatch="tag-without-flag")
+
+    return _c()
+
+
 # ---------------------------------------------------------------------------- configurations
 # A configuration case is a list of (key, value_id | None, content | None):
 #   content bytes -> set value;  content None -> delete value;  value_id None -> delete whole key
